@@ -287,6 +287,10 @@ def accessors(rep, prog):
                 continue
             pure = f.key in prog.reslicers
             narrowing = f.key in prog.narrowing_reslicers
+            if not pure:
+                # the accessor may go through private helpers (a shared length assertion, a shared
+                # pointer cast): judge the body with those folded in
+                pure, narrowing = pure_view_body(prog, f)
             allowed_prefix = (st in SLICE_LIKE) and m in ("as_array", "as_mut_array")
             ok = pure and not arith and (not narrowing or allowed_prefix or is_index_impl(imp))
             rep.ob("ACCESSOR", inst, ok,
@@ -304,6 +308,44 @@ def accessors(rep, prog):
             same = strip_views(root_a) == strip_views(root_l)
             rep.ob("ACCESSOR", "<%s as Bytes>::len == as_slice().len()" % st, same, "as_slice: %s; len: %s" % (a[:70], l[:70]), loc=methods["len"].loc())
     rep.floor("accessor methods", n, 40)
+
+
+PURE_READS = ("core::slice::<impl [T]>::len", "std::vec::Vec::<T, A>::len", "core::slice::<impl [T]>::is_empty",
+              "std::vec::Vec::<T, A>::is_empty", "types::Bytes::len", "types::Bytes::is_empty",
+              "core::slice::<impl [T]>::as_ptr", "core::slice::<impl [T]>::as_mut_ptr", "std::vec::Vec::<T, A>::as_ptr",
+              "std::vec::Vec::<T, A>::as_mut_ptr")
+NARROW_CALLS = ("std::ops::IndexMut::index_mut", "std::ops::Index::index", "core::slice::<impl [T]>::split_at_mut",
+                "core::slice::<impl [T]>::split_at", "core::slice::<impl [T]>::first_mut", "core::slice::<impl [T]>::last_mut")
+
+
+def pure_view_body(prog, f0):
+    """(pure, narrowing) for an accessor judged with its private helpers folded in: it stores through
+    no parameter, and calls nothing but view functions, pure reads (len/is_empty/as_ptr) and the
+    panic/format machinery of assertions; the returned reference derives from the receiver."""
+    from ..inline import inline
+    from ..engines import RESLICE
+    f = inline(prog, f0)
+    if f.locals[0].get("k") != "ref" or f.argc < 1:
+        return False, False
+    for b, i, st in f.assigns():
+        if "deref" in st["place"]["p"] and st["place"]["l"] != 0 and not f.blocks[b]["cleanup"]:
+            return False, False
+    narrowing = False
+    for c in f.calls():
+        if f.blocks[c.bb]["cleanup"]:
+            continue
+        if c.path in NARROW_CALLS or c.rpath in NARROW_CALLS or (c.rkey in prog.narrowing_reslicers):
+            narrowing = True
+            continue
+        if c.path in RESLICE or c.rpath in RESLICE or c.path in PURE_READS or c.rpath in PURE_READS or (c.rkey or "") in prog.reslicers:
+            continue
+        if c.path.startswith(("core::panicking", "std::fmt", "core::fmt", "std::rt::panic", "core::fmt::rt")) or "Arguments" in c.path:
+            continue
+        return False, False
+    # the result derives from the receiver (parameter 1)
+    if 1 not in f.backward_slice([0]):
+        return False, False
+    return True, narrowing
 
 
 def strip_views(s):
